@@ -114,6 +114,25 @@ def c12(pid, tier, t0):
         "lines are newline-terminated, as every line the editor hands to the matcher"])
 
 
+WRAPS = ["open", "read", "write", "close", "ftruncate", "stat", "access", "poll", "getc", "printf",
+         "ioctl", "tcgetattr", "tcsetattr", "isatty", "kill", "term_cmd", "lbuf_edit"]
+
+
+@check("C01")
+def c01(pid, tier, t0):
+    exe = nv.build_harness("c01_rw", "asan", ["c01_rw.c"], wraps=WRAPS)
+    res = nv.run_shards(exe, ["tier=" + tier, "deadline=%d" % dl(tier)], nv.NCPU, dl(tier) + 120)
+    return nv.finish(pid, tier, t0, res, {
+        "rule": "files as (line lengths, final-newline flag): single lines of every length 0..4300 and 8190..8194; all 2-line (thorough: 3-line) files with lengths in "
+                "{0,1,2,127..129,1022..1026,2047..2049,4093..4098,8191..8193}; line counts {0..3,510..514,1022..1026,2047..2049}; every byte 1..255 at offsets 0,1023,1024,4095,4096; "
+                "x all ranges x previous target {absent, shorter, equal, longer by 1, longer by >4096}; all placements of <= deviation_bound short reads/writes (counts 1, n/2, n-1); "
+                "plus :e/:w/:a,bw/%p of the real main() on a subset; every file is a distinct non-trivial case",
+        "deviation_bound": res.stats.get("deviation_bound"),
+        "explanation": "real lbuf_rd/lbuf_wr/sbuf over an in-memory file behind wrapped open/read/write/close/ftruncate (AddressSanitizer build); reference = split on newline / concatenate lines",
+    }, ["NUL bytes are outside the property", "a short count of 0 is not in the deviation alphabet (write_fully would spin; stated in DESIGN.md)",
+        "ftruncate answers with success (default environment)"])
+
+
 def replay(path):
     print("replay artefact:")
     print(open(path).read())
